@@ -28,8 +28,11 @@ Definition c_begin (c : comp) : N := if c_hra c then c_cap c - c_num c else 0.
 Definition mkc (c : comp) (sec j nsec state num cap blk nxt : N) : comp :=
   {| c_hra := c_hra c; c_sec := sec; c_j := j; c_nsec := nsec; c_state := state; c_num := num; c_cap := cap; c_blk := blk; c_nxt := nxt |}.
 
+(* capacity_ = 2 * get_nom_capacity() = 2 * (MULTIPLIER * INIT_NUM_SECTIONS * k) *)
+Definition init_cap (k : N) : N := 12 * k.
+
 Definition new_comp (hra : bool) (k : N) : comp * list eff :=
-  let cap := 2 * (2 * 3 * k) in
+  let cap := init_cap k in
   ({| c_hra := hra; c_sec := k; c_j := 0; c_nsec := 3; c_state := 0; c_num := 0; c_cap := cap; c_blk := 0; c_nxt := 1 |},
    [Alloc true 0 cap]).
 
